@@ -5,7 +5,7 @@ import common
 
 PROPS = "RotoV.Props.C02"
 MODULES = ["RotoV.Lemmas.Layout", "RotoV.Lemmas.LayoutPath", "RotoV.Lemmas.LayoutClone", "RotoV.Lemmas.LayoutEq", "RotoV.Lemmas.LayoutTotal", "RotoV.Lemmas.LayoutDrop", "RotoV.Lemmas.LayoutRead", "RotoV.Lemmas.LayoutWrite", "RotoV.Lemmas.LayoutListEq", "RotoV.Model.LayoutListEq", "RotoV.Model.LayoutListStd", "RotoV.Model.LayoutMem", "RotoV.Model.Layout", "RotoV.Model.LayoutOps",
-           "RotoV.Model.LayoutStd", "RotoV.Model.LayoutKind", "RotoV.Model.ValueSpec"]
+           "RotoV.Model.LayoutStd", "RotoV.Model.LayoutKind", "RotoV.Model.ValueSpec", "RotoV.Model.ValueCtor", "RotoV.Lemmas.ValueCtor"]
 
 
 def search(ctx):
